@@ -100,6 +100,10 @@ example : handle eq ⟨99, 1, true, 7, [0, 0, 227, 1, 0, 0, 0, 0, 0, 7]⟩ = [.d
   decide +kernel
 example : Established eq ⟨1, 3, true, 7, []⟩ := ⟨rfl, rfl, rfl⟩
 
+/-- non-vacuity of `exactly_one_builtin`: the hypotheses hold for S1F3 on the equipment class -/
+example : eq.catalogue = Gen.Callbacks.catalogue ∧ eq.builtin = Gen.Callbacks.builtinGemEquipmentHandler ∧ ((1, 3) : Nat × Nat) ∈ eq.builtin := by
+  decide +kernel
+
 /-! ## sequences -/
 
 /-- **All sequences.**  In the frames caused by any sequence of messages with pairwise distinct system bytes, the frames
@@ -138,6 +142,13 @@ theorem exactly_one_in_sequence (ems : List (Env × Msg)) (hd : (ems.map (·.2.s
       rw [filter_sys_other e mm _ hne, List.nil_append]
       exact ih hd.2 h
 
+/-- non-vacuity: a sequence of three messages with distinct system bytes; the middle one is answered once -/
+example :
+    let ems : List (Env × Msg) := [({ eq with outcome := fun _ => .reply 1 2 }, ⟨1, 1, true, 7, []⟩),
+      ({ eq with outcome := fun _ => .raises }, ⟨1, 3, true, 8, []⟩), (eq, ⟨99, 1, false, 9, []⟩)]
+    (ems.map (·.2.sys)).Nodup ∧ (handleAll ems).filter (fun fr => fr.sys == 8) = [.data 1 0 false 8 .empty] := by
+  decide +kernel
+
 /-! ## no reply without W -/
 
 /-- **No W-bit, handled without error ⇒ no reply** — for the variant that looks at the W-bit before sending the secondary -/
@@ -157,6 +168,10 @@ theorem no_reply_without_W (env : Env) (m : Msg) (hg : env.wGate = true) (hw : m
           · simp [ho]
         · simp [hcb, handleUnknown, hw]
       · rfl
+
+/-- non-vacuity: with the gate an S1F1 without W-bit whose callback returns S1F2 is handled without error and nothing is written -/
+example : (handle { eq with outcome := fun _ => .reply 1 2, wGate := true } ⟨1, 1, false, 7, []⟩).filter Frame.isData = [] := by
+  decide +kernel
 
 /-- what holds for the shipped code: no reply without W when there is no callback, or the callback returns `None` -/
 theorem no_reply_without_W_partial (env : Env) (m : Msg) (hw : m.w = false)
